@@ -66,6 +66,40 @@ def filtration_history(rnd, steps, checks=True, attrs=False, nav=True, pool=None
             emit('complexes f p', bracket=False)
     return lines, stats
 
+def stepped_iteration(rnd, lines, mode):
+    """continue a filtration history with a step-by-step iteration over f.complexes(): between two
+    next() calls the caller moves the current index and edits complexes the iterator already handed
+    out (the filtration's simplices are left alone: iterating over a collection that changes is
+    outside the iterator's contract).  mode 'c08': every step bracketed by save-all/unchanged-all;
+    mode 'c09': every complex handed out is compared with a snapshot taken at its index."""
+    w = impl.ImplWorld()
+    for l in lines:
+        w.exec(l)
+    f = w.vars['f']; inds = list(f.indices())
+    out = []
+    def emit(l):
+        out.append(l); w.exec(l)
+    emit('! iter it f')
+    for k, ind in enumerate(inds):
+        if rnd.random() < 0.6:
+            emit(rnd.choice(['setindex f %s' % idx_tok(rnd.choice(inds)), 'next f', 'prev f', 'min f', 'max f']))
+        if k > 0 and rnd.random() < 0.7:
+            v = 'p%d' % rnd.randrange(k); c = w.vars[v]; ss = c.simplices()
+            r = rnd.random()
+            if r < 0.4 or not ss:
+                emit('add %s [ ] sLEAK%d { sleak i%d }' % (v, k, k))
+            elif r < 0.7:
+                emit('setattr %s %s sleak i%d' % (v, tok(rnd.choice(ss)), k))
+            else:
+                emit('del %s %s' % (v, tok(rnd.choice(ss))))
+        if mode == 'c08':
+            emit('check save-all'); emit('nextc p%d it' % k); emit('check unchanged-all')
+        else:
+            emit('nextc p%d it' % k); emit('snap p%d' % k); emit('check fresh p%d complexes' % k)
+            emit('! copy keep f ?'); emit('! setindex keep %s' % idx_tok(ind)); emit('! snapf want keep')
+            emit('check same-content p%d want complexes' % k)
+    return out
+
 def _addb_ok(f, V):
     """in contract: every existing simplex on a subset of V is visible now, and V itself is new"""
     S = impl.SimplicialComplex
@@ -85,6 +119,8 @@ class C13(Prop):
         n = 90 if tier == 'quick' else 2500
         for i in range(n):
             lines, st = filtration_history(rnd, rnd.randint(6, 18) if tier == 'quick' else rnd.randint(8, 30))
+            if i % 4 == 3:
+                lines = lines + stepped_iteration(rnd, lines, 'c09')
             scripts.append(lines); merge_stats(stats, st)
         return scripts, {'op_mix': stats, 'generator': 'random histories over the index set {-1.5, 0, 0.5, 2} visited in any order: adds by faces and by basis, deletes (also of simplices not visible now), re-adds at emptied indices, snapshots and iterations in between'}
 
